@@ -4,7 +4,7 @@
 what=$1; shift
 cd /verif
 base=${MUT_SLOT_BASE:-0}; i=$base
-for p in "$@"; do i=$((i+1)); ( MUT_SLOT=$i python3 runner/muteval.py $what $p > /tmp/mv_$i.log 2>&1 ) & done
+for p in "$@"; do i=$((i+1)); ( MUT_SLOT=$i python3 runner/muteval.py $what ${p//,/ } > /tmp/mv_$i.log 2>&1 ) & done
 wait
 python3 - "$base" "$i" <<'PY'
 import json,sys,os
